@@ -33,6 +33,11 @@ type FibEnt struct {
 
 type FibCase struct {
 	Rounds [][]FibEnt `json:"rounds"`
+	// Bulk > 0: round BulkAt additionally prescribes one route for each of Bulk prefixes of
+	// their own (/bulk/<i>): more commands at once than the management thread's queue holds
+	// (4096) -- they must all be executed (seeded defect C19-r4-1 dropped the overflow)
+	Bulk   int `json:"bulk,omitempty"`
+	BulkAt int `json:"bulkAt,omitempty"`
 }
 
 var fibNames = []string{"/r1/32=DV", "/p/a", "/p/a/x", "/q"}
@@ -55,6 +60,10 @@ func genFibCase(t *rapid.T) FibCase {
 			round = append(round, e)
 		}
 		c.Rounds = append(c.Rounds, round)
+	}
+	if bits := rapid.SliceOfN(rapid.Bool(), 4, 4).Draw(t, "bulkBits"); bits[0] && bits[1] && bits[2] && bits[3] {
+		c.Bulk = rapid.SampledFrom([]int{300, 4095, 4096, 4097, 5000, 9000}).Draw(t, "bulk")
+		c.BulkAt = rapid.IntRange(0, n-1).Draw(t, "bulkAt")
 	}
 	return c
 }
@@ -99,6 +108,10 @@ func execFibCase(t *testing.T) func(FibCase) evid.Result {
 			for i, s := range fibNames {
 				names[i] = mustName(s)
 			}
+			var bulkNames []enc.Name
+			for i := 0; i < c.Bulk; i++ {
+				bulkNames = append(bulkNames, mustName(fmt.Sprintf("/bulk/%d", i)))
+			}
 			prev := map[routeKey]uint64{}
 			for ri, round := range c.Rounds {
 				// what fibUpdate does with the desired entries of this round
@@ -117,8 +130,21 @@ func execFibCase(t *testing.T) func(FibCase) evid.Result {
 						fib.MarkH(h)
 					}
 				}
+				bulk := c.Bulk > 0 && ri == c.BulkAt
+				if bulk {
+					for i, bn := range bulkNames {
+						h := bn.Hash()
+						if fib.UpdateH(h, bn, []table.FibEntry{{FaceId: 5 + uint64(i%3), Cost: 1 + uint64(i%7)}}) {
+							fib.MarkH(h)
+						}
+					}
+					res.Classes = append(res.Classes, "bulk-round")
+					if c.Bulk > 4096 {
+						res.Classes = append(res.Classes, "more-commands-than-the-management-queue-holds")
+					}
+				}
 				fib.RemoveUnmarked()
-				time.Sleep(time.Second) // the management thread needs 1 ms per command
+				time.Sleep(time.Second + time.Duration(2*c.Bulk)*4*time.Millisecond) // the management thread needs 1 ms per command
 				synctest.Wait()
 				// from scratch: lowest finite cost per (prefix, face)
 				want := map[routeKey]uint64{}
@@ -129,6 +155,11 @@ func execFibCase(t *testing.T) func(FibCase) evid.Result {
 					k := routeKey{names[e.Name].String(), e.Face}
 					if old, ok := want[k]; !ok || e.Cost < old {
 						want[k] = e.Cost
+					}
+				}
+				if bulk {
+					for i, bn := range bulkNames {
+						want[routeKey{bn.String(), 5 + uint64(i%3)}] = 1 + uint64(i%7)
 					}
 				}
 				rec.mu.Lock()
